@@ -16,7 +16,7 @@ ApiScope::ApiScope(const char *name, XSock *x, bool nonblocking) {
     saved_nb = t->api_nonblocking;
     saved_name = t->api_name;
     saved_sock = t->api_sock;
-    t->api_depth++;
+    if (t->api_depth++ == 0) t->api_eagains = 0;
     t->api_nonblocking = nonblocking;
     t->api_name = name;
     t->api_sock = x;
